@@ -155,9 +155,9 @@ CHECKS = {
              "peers) run one command at a time on the real Session; every state compared with the model applied to the "
              "previous observed state; the stronger 'has actually been asked' form and 'no manager panic' evaluated on the "
              "observed states with the task's piece tracked by the harness. Three genuine defects found and repaired.",
-        note="Partial: the equality of the task's and the manager's choke flag per peer over all interleavings, and 'no manager panic', "
-             "are not proved in Coq (the latter is tested on producible histories); the KillReq window after a task's death is not "
-             "modelled. No axioms.",
+        note="The equality of the task's and the manager's choke flag and assigned piece per peer over all interleavings is proved for the "
+             "composition of task and manager (C12_flags_agree, PairProofs.v). Partial: 'no manager panic' is not proved in Coq (tested on "
+             "producible histories); the KillReq window after a task's death is not modelled. No axioms.",
         technique="Coq proof (invariant by induction over reachable states, counting lemmas) + per-step differential correspondence",
         design="2/C12"),
     "C13": dict(
